@@ -1,9 +1,29 @@
 (* BitProof.v — proofs about the executable model BitIO.v (property C11). *)
 From Coq Require Import List NArith ZArith Arith Lia Bool.
 From V Require Import BitIO.
-From V Require Export BitFields.
 Import ListNotations.
 Local Open Scope N_scope.
+
+(* ====================================================================== *)
+(* Definitions used by the statements in Properties_C11.v:
+   reader well-formedness, and writing / reading a list of bit fields. *)
+
+Definition RWF (L:nat) (s:rst) : Prop := (rbit s < 8)%nat /\ (cur s <= L)%nat /\ (rbit s <> 0%nat -> (cur s < L)%nat).
+
+Fixpoint write_fields (s:wst) (fs:list (N*nat)) : option wst :=
+  match fs with
+  | [] => Some s
+  | (v,n) :: t => match putbits s v n with Some s1 => write_fields s1 t | None => None end
+  end.
+Fixpoint read_fields (d:list N) (L:nat) (s:rst) (ws:list nat) : option (list N * rst) :=
+  match ws with
+  | [] => Some ([], s)
+  | n :: t => match getbits d L s n with
+              | RRes v 0%Z s1 => match read_fields d L s1 t with Some (vs,s2) => Some (v::vs, s2) | None => None end
+              | _ => None
+              end
+  end.
+Definition rst_of_pos (p:nat) : rst := {| cur := p / 8; rbit := p mod 8 |}.
 
 (* ====================================================================== *)
 (* Arithmetic helpers *)
@@ -238,8 +258,8 @@ Theorem putbits_alloc : forall s v n s',
 Proof.
   intros s v n s' Hwf Ha Hn Hp. unfold WFalloc in *. unfold put_hi.
   assert (Hbn : (bitno s < 8)%nat) by (destruct Hwf; assumption).
-  assert (Hq : ((bitno s + n) / 8 <= 8)%nat).
-  { apply Nat.div_le_upper_bound; lia. }
+  assert (Hq : ((bitno s + n) / 8 < 9)%nat).
+  { apply Nat.div_lt_upper_bound; lia. }
   split; [|lia].
   unfold putbits in Hp.
   destruct (Nat.eqb_spec n 0) as [Hn0|Hn0]; [injection Hp as <-; exact Ha|].
@@ -252,3 +272,503 @@ Proof.
   - unfold slen in Hl. destruct Hw as (Hb1 & _). rewrite Hm. lia.
   - exact Hge.
 Qed.
+
+(* ====================================================================== *)
+(* The specification function rd *)
+
+Lemma rd_lt : forall d p n, rd d p n < 2^N.of_nat n.
+Proof.
+  intros d p n. induction n as [|k IH]; cbn [rd].
+  - cbn. lia.
+  - rewrite Nat2N.inj_succ, N.pow_succ_r'.
+    destruct (bit_at d (p + k)); cbn [N.b2n]; lia.
+Qed.
+
+Lemma rd_add : forall d p a b,
+  rd d p (a + b) = rd d p a * 2^N.of_nat b + rd d (p + a) b.
+Proof.
+  intros d p a b. induction b as [|k IH].
+  - rewrite Nat.add_0_r. cbn [rd N.of_nat]. change (2^0) with 1. lia.
+  - rewrite Nat.add_succ_r. cbn [rd]. rewrite IH.
+    rewrite Nat2N.inj_succ, N.pow_succ_r', Nat.add_assoc. lia.
+Qed.
+
+Lemma rd_ext : forall d d' p n,
+  (forall i, (p <= i < p + n)%nat -> bit_at d i = bit_at d' i) -> rd d p n = rd d' p n.
+Proof.
+  intros d d' p n. induction n as [|k IH]; intro H; cbn [rd]; [reflexivity|].
+  rewrite IH by (intros i Hi; apply H; lia).
+  rewrite (H (p + k)%nat) by lia. reflexivity.
+Qed.
+
+Lemma rd_app_l : forall d e p n, (p + n <= 8 * length d)%nat -> rd (d ++ e) p n = rd d p n.
+Proof.
+  intros d e p n H. apply rd_ext. intros i Hi. unfold bit_at.
+  rewrite app_nth1; [reflexivity|].
+  apply Nat.div_lt_upper_bound; lia.
+Qed.
+
+(* bits inside one byte *)
+Lemma rd_in_byte : forall d c r t, (r + t <= 8)%nat ->
+  rd d (8 * c + r) t = take_bits (nth c d 0) (8 - r - t) t.
+Proof.
+  intros d c r t. induction t as [|k IH]; intro H.
+  - cbn [rd]. unfold take_bits. cbn [N.of_nat]. rewrite N.land_ones. change (2^0) with 1. rewrite N.mod_1_r. reflexivity.
+  - cbn [rd]. rewrite IH by lia. rewrite !take_bits_arith.
+    unfold bit_at.
+    assert (Hd : ((8 * c + r + k) / 8 = c)%nat).
+    { symmetry. apply (Nat.div_unique _ 8 c (r + k)); lia. }
+    assert (Hm : ((8 * c + r + k) mod 8 = r + k)%nat).
+    { symmetry. apply (Nat.mod_unique _ 8 c (r + k)); lia. }
+    rewrite Hd, Hm. rewrite N.testbit_spec'.
+    replace (7 - (r + k))%nat with (8 - r - S k)%nat by lia.
+    set (m := (8 - r - S k)%nat).
+    replace (8 - r - k)%nat with (S m) by (unfold m; lia).
+    set (b := nth c d 0).
+    rewrite !Nat2N.inj_succ, !N.pow_succ_r'.
+    rewrite (N.mul_comm 2 (2^N.of_nat m)).
+    rewrite <- N.div_div by (try discriminate; apply pow2_nz).
+    set (x := b / 2 ^ N.of_nat m).
+    rewrite (N.mod_mul_r x 2 (2^N.of_nat k)) by (try discriminate; apply pow2_nz).
+    lia.
+Qed.
+
+Lemma rd_bytes : forall d, Forall (fun b => b < 256) d -> rd d 0 (8 * length d) = bytes_val d.
+Proof.
+  induction d as [|b l IH] using rev_ind; intro H.
+  - reflexivity.
+  - apply Forall_app in H. destruct H as [Hl Hb]. inversion Hb as [|? ? Hb' _]; subst.
+    rewrite app_length. cbn [length].
+    replace (8 * (length l + 1))%nat with (8 * length l + 8)%nat by lia.
+    rewrite rd_add. rewrite rd_app_l by lia. rewrite IH by exact Hl.
+    rewrite bytes_val_app. cbn [Nat.add].
+    replace (8 * length l)%nat with (8 * length l + 0)%nat at 1 by lia.
+    rewrite rd_in_byte by lia. rewrite take_bits_arith.
+    rewrite app_nth2 by lia. rewrite Nat.sub_diag. cbn [nth].
+    change (8 - 0 - 8)%nat with 0%nat. change (2^N.of_nat 0) with 1. rewrite N.div_1_r.
+    change (2^N.of_nat 8) with 256. rewrite N.mod_small by exact Hb'. reflexivity.
+Qed.
+
+Lemma slen_nat s : N.to_nat (slen s) = (8 * length (done_ s) + bitno s)%nat.
+Proof. unfold slen. lia. Qed.
+
+Theorem wbytes_rd : forall s, WF s -> rd (wbytes s) 0 (N.to_nat (slen s)) = sval s.
+Proof.
+  intros s (Hb & Hd & Hc). rewrite slen_nat. unfold wbytes, sval.
+  destruct (Nat.eqb_spec (bitno s) 0) as [E|E].
+  - rewrite E, Nat.add_0_r. rewrite rd_bytes by exact Hd. cbn [N.of_nat]. change (2^0) with 1. lia.
+  - destruct (Hc E) as [Hc1 _].
+    rewrite rd_add. rewrite rd_app_l by lia. rewrite rd_bytes by exact Hd.
+    f_equal. cbn [Nat.add].
+    replace (8 * length (done_ s))%nat with (8 * length (done_ s) + 0)%nat by lia.
+    rewrite rd_in_byte by lia. rewrite take_bits_arith.
+    rewrite app_nth2 by lia. rewrite Nat.sub_diag. cbn [nth].
+    replace (8 - 0 - bitno s)%nat with (8 - bitno s)%nat by lia.
+    apply N.mod_small.
+    apply N.div_lt_upper_bound; [apply pow2_nz|].
+    rewrite <- N.pow_add_r. replace (N.of_nat (8 - bitno s) + N.of_nat (bitno s)) with 8 by lia. exact Hc1.
+Qed.
+
+(* ====================================================================== *)
+(* Reader *)
+
+Lemma rd_in_byte0 : forall d c t, (t <= 8)%nat ->
+  rd d (8 * c) t = take_bits (nth c d 0) (8 - t) t.
+Proof.
+  intros d c t H. replace (8 * c)%nat with (8 * c + 0)%nat by lia.
+  rewrite rd_in_byte by lia. reflexivity.
+Qed.
+
+Lemma lor_shift bits t x : x < 2^N.of_nat t ->
+  N.lor (N.shiftl bits (N.of_nat t)) x = bits * 2^N.of_nat t + x.
+Proof.
+  intro H. rewrite N.shiftl_mul_pow2.
+  apply (lor_disjoint _ _ (N.of_nat t)); [apply N.mod_mul, pow2_nz|exact H].
+Qed.
+
+Lemma take_bits_lt b sh t : take_bits b sh t < 2^N.of_nat t.
+Proof. rewrite take_bits_arith. apply N.mod_lt, pow2_nz. Qed.
+
+Lemma rd_byte_in d L i : (L <= length d)%nat -> (i < L)%nat -> rd_byte d L i = Some (nth i d 0).
+Proof.
+  intros HL Hi. unfold rd_byte. destruct (Nat.ltb_spec i L) as [_|?]; [|lia].
+  apply nth_error_nth'. lia.
+Qed.
+
+(* the part of bufr_getbits after the nbbits > 64 check *)
+Definition getbits_body (d:list N) (L:nat) (s:rst) (n:nat) : rres :=
+  if Nat.eqb n 0 then RRes 0 0%Z s else
+  if Nat.leb L (cur s) then RRes 0 (-1)%Z s else
+  let p1 := (rbit s mod 8)%nat in
+  let take := Nat.min n (8 - p1) in
+  let left := (n - take)%nat in
+  match rd_byte d L (cur s) with
+  | None => ROob
+  | Some byte =>
+    let bits := take_bits byte (8 - (take + p1)) take in
+    let bn := ((rbit s + take) mod 8)%nat in
+    if Nat.eqb bn 0 then
+      if andb (Nat.leb (L - 1) (cur s)) (Nat.ltb take n) then RRes 0 (-1)%Z s
+      else get_loop left d L n left take bits {| cur := S (cur s); rbit := 0 |}
+    else get_loop left d L n left take bits {| cur := cur s; rbit := bn |}
+  end.
+
+Lemma getbits_unfold d L s n :
+  getbits d L s n = if Nat.ltb 64 n then RRes 0 (-2)%Z s else getbits_body d L s n.
+Proof. reflexivity. Qed.
+
+(* ---- no out-of-bounds access ---- *)
+
+Lemma get_loop_no_oob : forall fuel d L nb left nread bits s,
+  (L <= length d)%nat -> (left = 0%nat \/ (cur s < L)%nat) ->
+  get_loop fuel d L nb left nread bits s <> ROob.
+Proof.
+  induction fuel as [|f IH]; intros d L nb left nread bits s HL H; cbn [get_loop]; [discriminate|].
+  destruct (Nat.eqb_spec left 0) as [E|E]; [discriminate|].
+  destruct H as [H|H]; [contradiction|].
+  rewrite rd_byte_in by assumption.
+  destruct (Nat.eqb_spec ((rbit s + Nat.min left 8) mod 8) 0) as [_|_].
+  - destruct (Nat.leb_spec (L - 1) (cur s)) as [_|Hlt]; [discriminate|].
+    apply IH; [assumption|]. right. cbn [cur]. lia.
+  - apply IH; [assumption|]. right. cbn [cur]. exact H.
+Qed.
+
+Lemma body_no_oob : forall d L s n, (L <= length d)%nat -> getbits_body d L s n <> ROob.
+Proof.
+  intros d L s n HL. unfold getbits_body.
+  destruct (Nat.eqb_spec n 0) as [_|_]; [discriminate|].
+  destruct (Nat.leb_spec L (cur s)) as [_|Hlt]; [discriminate|].
+  rewrite rd_byte_in by assumption.
+  set (take := Nat.min n (8 - rbit s mod 8)).
+  destruct (Nat.eqb_spec ((rbit s + take) mod 8) 0) as [_|_].
+  - destruct (Nat.leb_spec (L - 1) (cur s)) as [_|Hlt1]; cbn [andb].
+    + destruct (Nat.ltb_spec take n) as [_|Hge]; [discriminate|].
+      apply get_loop_no_oob; [assumption|]. left. lia.
+    + apply get_loop_no_oob; [assumption|]. right. cbn [cur]. lia.
+  - apply get_loop_no_oob; [assumption|]. right. cbn [cur]. exact Hlt.
+Qed.
+
+Theorem getbits_no_oob : forall d L s n, (L <= length d)%nat -> getbits d L s n <> ROob.
+Proof.
+  intros d L s n HL. rewrite getbits_unfold.
+  destruct (Nat.ltb 64 n); [discriminate|]. apply body_no_oob. exact HL.
+Qed.
+
+(* ---- skip = get without the data ---- *)
+
+Lemma skip_loop_eq_get : forall fuel d L nb left nread bits s v e s',
+  get_loop fuel d L nb left nread bits s = RRes v e s' ->
+  skip_loop fuel L nb left nread s = (e, s').
+Proof.
+  induction fuel as [|f IH]; intros d L nb left nread bits s v e s' H; cbn [get_loop skip_loop] in *.
+  - injection H as _ <- <-. reflexivity.
+  - destruct (Nat.eqb left 0).
+    + injection H as _ <- <-. reflexivity.
+    + destruct (rd_byte d L (cur s)) as [byte|]; [|discriminate].
+      destruct (Nat.eqb ((rbit s + Nat.min left 8) mod 8) 0).
+      * destruct (Nat.leb (L - 1) (cur s)).
+        -- injection H as _ <- <-. reflexivity.
+        -- eapply IH. exact H.
+      * eapply IH. exact H.
+Qed.
+
+Lemma body_skip : forall d L s n v e s',
+  getbits_body d L s n = RRes v e s' -> skip_bits L s n = (e, s').
+Proof.
+  intros d L s n v e s' H. unfold getbits_body in H. unfold skip_bits.
+  destruct (Nat.eqb n 0).
+  - injection H as _ <- <-. reflexivity.
+  - destruct (Nat.leb L (cur s)).
+    + injection H as _ <- <-. reflexivity.
+    + destruct (rd_byte d L (cur s)) as [byte|]; [|discriminate].
+      destruct (Nat.eqb ((rbit s + Nat.min n (8 - rbit s mod 8)) mod 8) 0).
+      * destruct (Nat.leb (L - 1) (cur s) && Nat.ltb (Nat.min n (8 - rbit s mod 8)) n)%bool.
+        -- injection H as _ <- <-. reflexivity.
+        -- eapply skip_loop_eq_get. exact H.
+      * eapply skip_loop_eq_get. exact H.
+Qed.
+
+Theorem skip_eq_get : forall d L s n v e s',
+  (L <= length d)%nat -> (n <= 64)%nat -> getbits d L s n = RRes v e s' -> skip_bits L s n = (e, s').
+Proof.
+  intros d L s n v e s' _ Hn H. rewrite getbits_unfold in H.
+  destruct (Nat.ltb_spec 64 n) as [?|_]; [lia|].
+  eapply body_skip. exact H.
+Qed.
+
+(* ---- functional specification of the reader ---- *)
+
+Lemma get_loop_done : forall fuel d L n nread bits s,
+  get_loop fuel d L n 0 nread bits s = RRes bits 0%Z s.
+Proof. destruct fuel; reflexivity. Qed.
+
+Definition loop_post (d:list N) (L:nat) (left:nat) (bits:N) (s:rst) (r:rres) : Prop :=
+  ((8 * cur s + left <= 8 * L)%nat ->
+     exists v s', r = RRes v 0%Z s' /\ v = bits * 2^N.of_nat left + rd d (8 * cur s) left
+        /\ rpos s' = (8 * cur s + left)%nat /\ RWF L s') /\
+  ((8 * cur s + left > 8 * L)%nat ->
+     exists v e s', r = RRes v e s' /\ (e < 0)%Z /\ RWF L s').
+
+Lemma done_case d L bits s : rbit s = 0%nat -> (cur s <= L)%nat ->
+  loop_post d L 0 bits s (RRes bits 0%Z s).
+Proof.
+  intros Hr Hc. split; intro H; [|exfalso; lia].
+  exists bits, s. split; [reflexivity|]. split; [cbn [rd N.of_nat]; change (2^0) with 1; lia|].
+  split; [unfold rpos; lia|]. unfold RWF. lia.
+Qed.
+
+Lemma get_loop_spec : forall fuel d L n left nread bits s,
+  L = length d -> (left <= fuel)%nat -> rbit s = 0%nat -> (cur s <= L)%nat ->
+  (left = 0%nat \/ (cur s < L)%nat) -> (nread + left = n)%nat ->
+  loop_post d L left bits s (get_loop fuel d L n left nread bits s).
+Proof.
+  induction fuel as [|f IH]; intros d L n left nread bits s HL Hf Hr Hc Hor Hn.
+  - assert (left = 0%nat) by lia. subst left. rewrite get_loop_done. apply done_case; assumption.
+  - destruct (Nat.eq_dec left 0) as [->|Hl0]; [rewrite get_loop_done; apply done_case; assumption|].
+    destruct Hor as [?|Hlt]; [contradiction|].
+    cbn [get_loop]. destruct (Nat.eqb_spec left 0) as [?|_]; [contradiction|].
+    rewrite rd_byte_in by lia. rewrite Hr. cbn [Nat.add].
+    set (byte := nth (cur s) d 0).
+    destruct (Nat.le_gt_cases 8 left) as [H8|H8].
+    + rewrite Nat.min_r by exact H8. change (8 mod 8)%nat with 0%nat. cbn [Nat.eqb]. change (8-8)%nat with 0%nat.
+      rewrite lor_shift by apply take_bits_lt.
+      replace (take_bits byte 0 8) with (rd d (8 * cur s) 8) by (rewrite rd_in_byte0 by lia; reflexivity).
+      set (bits' := bits * 2^N.of_nat 8 + rd d (8 * cur s) 8).
+      destruct (Nat.leb_spec (L-1) (cur s)) as [Hlast|Hnl].
+      * split; intro H.
+        -- assert (left = 8%nat) by lia. subst left.
+           destruct (Nat.ltb_spec (nread+8) n) as [?|_]; [lia|].
+           exists bits', {| cur := S (cur s); rbit := 0 |}.
+           split; [reflexivity|]. split; [reflexivity|].
+           split; [unfold rpos; cbn [cur rbit]; lia|]. unfold RWF; cbn [cur rbit]; lia.
+        -- destruct (Nat.ltb_spec (nread+8) n) as [_|?]; [|lia].
+           exists bits', (-1)%Z, {| cur := S (cur s); rbit := 0 |}.
+           split; [reflexivity|]. split; [lia|]. unfold RWF; cbn [cur rbit]; lia.
+      * specialize (IH d L n (left-8)%nat (nread+8)%nat bits' {| cur := S (cur s); rbit := 0 |} HL).
+        unfold loop_post in IH. cbn [cur rbit] in IH.
+        destruct IH as [I1 I2]; [lia|reflexivity|lia|lia|lia|].
+        split; intro H.
+        -- destruct I1 as (v & s' & Hg & Hv & Hp & Hw); [lia|]. exists v, s'.
+           split; [exact Hg|]. split; [|split;[lia|exact Hw]].
+           rewrite Hv.
+           replace (rd d (8 * cur s) left) with (rd d (8 * cur s) (8 + (left-8))) by (f_equal; lia).
+           rewrite rd_add. replace (8 * cur s + 8)%nat with (8 * S (cur s))%nat by lia.
+           replace (2^N.of_nat left) with (2^N.of_nat 8 * 2^N.of_nat (left-8))
+             by (rewrite <- N.pow_add_r; f_equal; lia).
+           unfold bits'. ring.
+        -- destruct I2 as (v & e & s' & Hg & He & Hw); [lia|]. exists v, e, s'. auto.
+    + rewrite Nat.min_l by lia. rewrite Nat.sub_diag. rewrite (Nat.mod_small left 8) by lia.
+      destruct (Nat.eqb_spec left 0) as [?|_]; [contradiction|].
+      rewrite get_loop_done. rewrite lor_shift by apply take_bits_lt.
+      split; intro H; [|exfalso; lia].
+      eexists _, _. split; [reflexivity|].
+      split; [rewrite rd_in_byte0 by lia; reflexivity|].
+      split; [unfold rpos; cbn [cur rbit]; lia|]. unfold RWF; cbn [cur rbit]; lia.
+Qed.
+
+Lemma body_spec : forall d L s n,
+  L = length d -> RWF L s -> (1 <= n)%nat ->
+  ((rpos s + n <= 8 * L)%nat ->
+     exists v s', getbits_body d L s n = RRes v 0%Z s' /\ v = rd d (rpos s) n
+        /\ rpos s' = (rpos s + n)%nat /\ RWF L s') /\
+  ((rpos s + n > 8 * L)%nat ->
+     exists v e s', getbits_body d L s n = RRes v e s' /\ (e < 0)%Z /\ RWF L s').
+Proof.
+  intros d L s n HL Hrwf Hn. pose proof Hrwf as (Hb & Hc & Hbc). unfold getbits_body, rpos.
+  destruct (Nat.eqb_spec n 0) as [?|_]; [lia|].
+  destruct (Nat.leb_spec L (cur s)) as [Hge|Hlt].
+  { split; intro H; [exfalso; lia|].
+    exists 0, (-1)%Z, s. split; [reflexivity|]. split; [lia|exact Hrwf]. }
+  rewrite rd_byte_in by lia. cbv zeta.
+  rewrite (Nat.mod_small (rbit s) 8) by exact Hb.
+  set (r := rbit s) in *. set (c := cur s) in *.
+  set (take := Nat.min n (8 - r)).
+  set (left := (n - take)%nat).
+  set (byte := nth c d 0).
+  assert (Htake : (1 <= take <= 8 - r)%nat) by (unfold take; lia).
+  assert (Hn' : n = (take + left)%nat) by (unfold left, take; lia).
+  assert (Hmin : (take = n \/ take = 8 - r)%nat) by (unfold take; lia).
+  assert (Hbits : take_bits byte (8 - (take + r)) take = rd d (8*c+r) take).
+  { rewrite rd_in_byte by lia. f_equal. lia. }
+  rewrite Hbits.
+  destruct (Nat.eqb_spec ((r + take) mod 8) 0) as [Hfull|Hpart].
+  - assert (Hrt : (r + take = 8)%nat).
+    { destruct (Nat.eq_dec (r+take) 8) as [E|E]; [exact E|]. rewrite Nat.mod_small in Hfull by lia. lia. }
+    destruct (Nat.leb (L - 1) c && Nat.ltb take n)%bool eqn:Hand.
+    + apply andb_true_iff in Hand. destruct Hand as [H1 H2].
+      apply Nat.leb_le in H1. apply Nat.ltb_lt in H2.
+      split; intro H; [exfalso; lia|].
+      exists 0, (-1)%Z, s. split; [reflexivity|]. split; [lia|exact Hrwf].
+    + assert (Hor : (left = 0 \/ S c < L)%nat).
+      { apply andb_false_iff in Hand. destruct Hand as [H1|H2].
+        - apply Nat.leb_gt in H1. right. lia.
+        - apply Nat.ltb_ge in H2. left. lia. }
+      pose proof (get_loop_spec left d L n left take (rd d (8*c+r) take) {| cur := S c; rbit := 0 |}
+                    HL (le_n _) eq_refl) as G. unfold loop_post in G. cbn [cur rbit] in G.
+      destruct G as [G1 G2]; [lia|exact Hor|lia|]. cbn [cur rbit] in G1, G2.
+      split; intro H.
+      * destruct G1 as (v & s' & Hg & Hv & Hp & Hw); [lia|]. exists v, s'.
+        split; [exact Hg|]. split; [|split; [unfold rpos in Hp; lia|exact Hw]].
+        rewrite Hv. replace (rd d (8*c+r) n) with (rd d (8*c+r) (take + left)) by (f_equal; lia).
+        rewrite rd_add. replace (8*c+r+take)%nat with (8 * S c)%nat by lia. reflexivity.
+      * destruct G2 as (v & e & s' & Hg & He & Hw); [lia|]. exists v, e, s'. auto.
+  - assert (Hlt8 : (r + take < 8)%nat).
+    { destruct (Nat.eq_dec (r+take) 8) as [E|E]; [rewrite E in Hpart; exfalso; apply Hpart; reflexivity|lia]. }
+    assert (Hl0 : left = 0%nat) by lia.
+    rewrite Hl0. rewrite get_loop_done. rewrite Nat.mod_small by lia.
+    split; intro H; [|exfalso; lia].
+    eexists _, _. split; [reflexivity|]. split; [f_equal; lia|].
+    split; [cbn [cur rbit]; lia|]. unfold RWF; cbn [cur rbit]; lia.
+Qed.
+
+Theorem getbits_spec : forall d L s n,
+  L = length d -> RWF L s -> (1 <= n <= 64)%nat ->
+  ((rpos s + n <= 8 * L)%nat ->
+     exists s', getbits d L s n = RRes (rd d (rpos s) n) 0%Z s' /\ rpos s' = (rpos s + n)%nat /\ RWF L s') /\
+  ((rpos s + n > 8 * L)%nat ->
+     exists v e s', getbits d L s n = RRes v e s' /\ (e < 0)%Z /\ RWF L s').
+Proof.
+  intros d L s n HL Hw Hn. rewrite getbits_unfold.
+  destruct (Nat.ltb_spec 64 n) as [?|_]; [lia|].
+  destruct (body_spec d L s n HL Hw) as [B1 B2]; [lia|].
+  split; intro H.
+  - destruct (B1 H) as (v & s' & Hg & Hv & Hp & Hw'). subst v. exists s'. auto.
+  - exact (B2 H).
+Qed.
+
+Theorem skip_spec : forall L s n,
+  RWF L s ->
+  ((rpos s + n <= 8 * L)%nat -> exists s', skip_bits L s n = (0%Z, s') /\ rpos s' = (rpos s + n)%nat /\ RWF L s') /\
+  ((rpos s + n > 8 * L)%nat -> exists e s', skip_bits L s n = (e, s') /\ (e < 0)%Z).
+Proof.
+  intros L s n Hw.
+  destruct (Nat.eq_dec n 0) as [->|Hn].
+  - pose proof Hw as (Hb & Hc & Hbc). unfold rpos.
+    split; intro H; [|exfalso; lia].
+    exists s. split; [reflexivity|]. split; [unfold rpos; lia|exact Hw].
+  - destruct (body_spec (repeat 0 L) L s n) as [B1 B2];
+      [symmetry; apply repeat_length|exact Hw|lia|].
+    split; intro H.
+    + destruct (B1 H) as (v & s' & Hg & _ & Hp & Hw'). exists s'.
+      split; [eapply body_skip; exact Hg|auto].
+    + destruct (B2 H) as (v & e & s' & Hg & He & _). exists e, s'.
+      split; [eapply body_skip; exact Hg|exact He].
+Qed.
+
+(* ====================================================================== *)
+(* Strings *)
+
+Lemma putstring_fields : forall l s,
+  putstring s l = write_fields s (map (fun c => (c, 8%nat)) l).
+Proof.
+  induction l as [|c t IH]; intro s; cbn [putstring write_fields map]; [reflexivity|].
+  destruct (putbits s c 8); [apply IH|reflexivity].
+Qed.
+
+Theorem padstring_fields : forall s str enclen s',
+  WF s -> Forall (fun c => c < 256) str -> put_padstring s str enclen = Some s' ->
+  let body := firstn enclen str in
+  write_fields s (map (fun c => (c, 8%nat)) (body ++ repeat 32 (enclen - length body))) = Some s'.
+Proof.
+  intros s str enclen s' _ _ H body. unfold put_padstring in H.
+  rewrite <- putstring_fields. exact H.
+Qed.
+
+(* ====================================================================== *)
+(* Round trip *)
+
+(* s extends s1: the bit string of s1 is a prefix of the bit string of s *)
+Definition Pre (s1 s:wst) : Prop :=
+  exists k w, slen s = slen s1 + N.of_nat k /\ sval s = sval s1 * 2^N.of_nat k + w /\ w < 2^N.of_nat k.
+
+Lemma write_fields_pre : forall fs s0 s,
+  WF s0 -> Forall (fun f => (1 <= snd f <= 64)%nat) fs -> write_fields s0 fs = Some s ->
+  Pre s0 s /\ WF s.
+Proof.
+  induction fs as [|[v n] t IH]; intros s0 s Hw Hf H; cbn [write_fields] in H.
+  - injection H as <-. split; [|exact Hw]. exists 0%nat, 0. cbn [N.of_nat]. change (2^0) with 1. lia.
+  - inversion Hf as [|? ? Hn Ht]; subst. cbn [snd] in Hn.
+    destruct (putbits_append s0 v n Hw Hn) as (s1 & Hp & Hv & Hl & Hw1). rewrite Hp in H.
+    destruct (IH s1 s Hw1 Ht H) as ((k & w & Hk & Hvk & Hwk) & Hws). split; [|exact Hws].
+    exists (n + k)%nat, (v mod 2^N.of_nat n * 2^N.of_nat k + w).
+    split; [lia|].
+    rewrite Nat2N.inj_add, N.pow_add_r.
+    assert (Hm : v mod 2^N.of_nat n < 2^N.of_nat n) by (apply N.mod_lt, pow2_nz).
+    set (A := 2^N.of_nat n) in *. set (K := 2^N.of_nat k) in *. set (a := v mod A) in *.
+    split.
+    + rewrite Hvk, Hv. ring.
+    + apply N.lt_le_trans with ((a + 1) * K); [lia|]. apply N.mul_le_mono_r. lia.
+Qed.
+
+Lemma pre_rd : forall s1 s, Pre s1 s -> WF s ->
+  rd (wbytes s) 0 (N.to_nat (slen s1)) = sval s1.
+Proof.
+  intros s1 s (k & w & Hk & Hv & Hw) Hwf.
+  pose proof (wbytes_rd s Hwf) as R.
+  replace (N.to_nat (slen s)) with (N.to_nat (slen s1) + k)%nat in R by lia.
+  rewrite rd_add in R. cbn [Nat.add] in R.
+  pose proof (rd_lt (wbytes s) (N.to_nat (slen s1)) k) as Hlt.
+  set (A := rd (wbytes s) 0 (N.to_nat (slen s1))) in *.
+  set (B := rd (wbytes s) (N.to_nat (slen s1)) k) in *.
+  destruct (N.div_mod_unique (2^N.of_nat k) A (sval s1) B w Hlt Hw) as [E _]; [lia|exact E].
+Qed.
+
+Lemma pre_len : forall s1 s, Pre s1 s -> (N.to_nat (slen s1) <= N.to_nat (slen s))%nat.
+Proof. intros s1 s (k & w & Hk & _). lia. Qed.
+
+Lemma wbytes_len : forall s, (bitno s < 8)%nat -> (N.to_nat (slen s) <= 8 * length (wbytes s))%nat.
+Proof.
+  intros s Hb. rewrite slen_nat. unfold wbytes.
+  destruct (Nat.eqb_spec (bitno s) 0) as [E|E]; [lia|].
+  rewrite app_length. cbn [length]. lia.
+Qed.
+
+Lemma rr_gen : forall fs s0 s r d,
+  WF s0 -> Forall (fun f => (1 <= snd f <= 64)%nat) fs -> write_fields s0 fs = Some s ->
+  d = wbytes s -> RWF (length d) r -> rpos r = N.to_nat (slen s0) ->
+  exists s', read_fields d (length d) r (map snd fs)
+             = Some (map (fun f => fst f mod 2^(N.of_nat (snd f))) fs, s')
+          /\ rpos s' = N.to_nat (slen s).
+Proof.
+  induction fs as [|[v n] t IH]; intros s0 s r d Hw Hf H Hd Hr Hp.
+  - cbn [write_fields] in H. injection H as <-. exists r. split; [reflexivity|exact Hp].
+  - destruct (write_fields_pre _ _ _ Hw Hf H) as (Hpre0 & Hws).
+    cbn [write_fields] in H.
+    inversion Hf as [|? ? Hn Ht]; subst. cbn [snd] in Hn.
+    destruct (putbits_append s0 v n Hw Hn) as (s1 & Hpb & Hv & Hl & Hw1). rewrite Hpb in H.
+    destruct (write_fields_pre _ _ _ Hw1 Ht H) as (Hpre1 & _).
+    pose proof (pre_rd s0 s Hpre0 Hws) as R0. pose proof (pre_rd s1 s Hpre1 Hws) as R1.
+    pose proof (pre_len _ _ Hpre1) as Hlen1.
+    assert (Hbs : (bitno s < 8)%nat) by (destruct Hws; assumption).
+    pose proof (wbytes_len s Hbs) as Hlen.
+    set (d := wbytes s) in *.
+    assert (Hp1 : N.to_nat (slen s1) = (N.to_nat (slen s0) + n)%nat) by lia.
+    rewrite Hp1, rd_add, R0 in R1. cbn [Nat.add] in R1.
+    assert (Hrd : rd d (N.to_nat (slen s0)) n = v mod 2^N.of_nat n) by lia.
+    destruct (getbits_spec d (length d) r n eq_refl Hr Hn) as [G1 _].
+    destruct G1 as (r1 & Hg & Hpr1 & Hr1); [lia|].
+    destruct (IH s1 s r1 d Hw1 Ht H eq_refl Hr1) as (s' & Hrf & Hps); [lia|].
+    exists s'. split; [|exact Hps].
+    cbn [map read_fields fst snd]. rewrite Hg. cbv beta iota. rewrite Hrf.
+    rewrite Hp, Hrd. reflexivity.
+Qed.
+
+Theorem write_read_roundtrip : forall s0 fs s,
+  WF s0 -> Forall (fun f => (1 <= snd f <= 64)%nat) fs -> write_fields s0 fs = Some s ->
+  let d := wbytes s in
+  exists s', read_fields d (length d) (rst_of_pos (N.to_nat (slen s0))) (map snd fs)
+             = Some (map (fun f => fst f mod 2^(N.of_nat (snd f))) fs, s')
+          /\ rpos s' = N.to_nat (slen s).
+Proof.
+  intros s0 fs s Hw Hf H d.
+  destruct (write_fields_pre _ _ _ Hw Hf H) as (Hpre & Hws).
+  pose proof (pre_len _ _ Hpre) as Hl.
+  assert (Hbs : (bitno s < 8)%nat) by (destruct Hws; assumption).
+  pose proof (wbytes_len s Hbs) as Hlen. fold d in Hlen.
+  set (p := N.to_nat (slen s0)) in *.
+  pose proof (Nat.div_mod p 8) as Hdm. pose proof (Nat.mod_upper_bound p 8) as Hub.
+  apply (rr_gen fs s0 s _ d Hw Hf H eq_refl).
+  - unfold RWF, rst_of_pos. cbn [cur rbit]. lia.
+  - unfold rpos, rst_of_pos. cbn [cur rbit]. fold p. lia.
+Qed.
+
